@@ -33,8 +33,8 @@ from collections import Counter
 VERIF = os.path.dirname(os.path.dirname(os.path.abspath(__file__)))
 REPO = os.environ.get("VERIF_REPO", "/repo")
 PY = "/venv/bin/python"
-EVIDENCE_DIR = os.path.join(VERIF, "evidence")
-REPLAY_DIR = os.path.join(VERIF, "replays")
+EVIDENCE_DIR = os.environ.get("VERIF_EVIDENCE_DIR") or os.path.join(VERIF, "evidence")
+REPLAY_DIR = os.environ.get("VERIF_REPLAY_DIR") or os.path.join(VERIF, "replays")
 KNOWN_FINDINGS = os.path.join(VERIF, "known_findings.json")
 
 
@@ -317,6 +317,10 @@ def drive(mod, tier, seed):
     verdict lines.  Returns the process exit code."""
     prop = mod.PROPERTY
     t0 = time.time()
+    if os.path.isdir(REPLAY_DIR):
+        for fn in os.listdir(REPLAY_DIR):
+            if fn.startswith(prop + "-"):
+                os.remove(os.path.join(REPLAY_DIR, fn))
     plan = mod.plan(tier, seed)
     shards = plan["shards"]
     results = run_sharded(mod.__name__, shards, seed=seed, workers=plan.get("workers"), maxtasks=plan.get("maxtasksperchild"))
